@@ -25,7 +25,7 @@ def plan(tier, seed):
     # without being sent, held transactions and `with trade:` blocks that raise change what "placed" means and are left to C02 / C03 / C12)
     cases = _sim.plan_profiles(tier, seed, WEIGHTS, 7000, 80000, usage={"p_batch": 0.7})
     n = 1500 if tier == "quick" else 40000
-    cases += [{"mode": "live_walk", "seed": seed, "idx": i, "cfg": {"n": 1 + i % 3, "async": i % 4 == 3, "hc": i % 7 == 3, "ext": i % 2 == 1, "sp": (i // 2) % 4 if i % 6 == 5 else 0}, "len": 9 + i % 6} for i in range(n)]
+    cases += [{"mode": "live_walk", "seed": seed, "idx": i, "cfg": {"n": 1 + i % 3, "async": i % 4 == 3, "hc": i % 7 == 3, "ext": i % 2 == 1, "sp": (i // 2) % 4 if i % 6 == 5 else 0, "lose_reply": i % 4 == 2}, "len": 9 + i % 6} for i in range(n)]
     # directed case for the listed finding C10-reused-trade-order-completes-before-executed
     cases.insert(0, {"mode": "directed_reuse", "seed": seed, "idx": 0})
     # paper trading: simulated execution on the pool of a live Flumine, completion reported by the poller
